@@ -23,13 +23,21 @@ META = dict(
                "clock the receiver measures executions with (time.time()) is a scripted clock that is not the loop's monotonic "
                "clock: it is stepped backwards / forwards (milliseconds .. years), set to an absolute value or stands still "
                "while executions are under way (negative, zero and huge measured durations) - the stored result and the "
-               "completion of the message must not depend on it.",
+               "completion of the message must not depend on it. A tenth of the raising task bodies (and failing "
+               "dependencies) raise an exception OBJECT that is not a plain instance of a built-in class: instances of derived "
+               "classes (of NoResultError, TimeoutError, CancelledError, KeyboardInterrupt ... too) that are unhashable "
+               "(@dataclass, __eq__ without __hash__, hash raising), compare by value / always / never / raise on ==, are falsy, "
+               "have raising __str__ / __repr__, an own __init__ signature, unpicklable / un-JSON-able / huge args, exception "
+               "groups, __cause__ / __context__ chains (cyclic ones, ones holding such objects), one object raised by several "
+               "messages - half of these cases with logging configured; the model sees the class identifier only.",
     level_note="Known finding sync_generator_exit (D10): a SYNC function raising GeneratorExit - the theorems exclude exactly "
                "that region (wf_recv: sync_genexit c = false) and C07_one_save_refuted_sync_genexit exhibits it. The statement "
                "claims timeout enforcement for async functions only; for sync functions wait_for gives up but the thread "
                "runs on (modelled: BodyDetached; the oracle accepts both outcomes there). Equality duration = timeout is the "
                "event loop's choice (c_tie) and not generated. Return values and exception instances are compared by value "
-               "id / class; serialisation of the result is C19's subject.",
+               "id / class; serialisation of the result is C19's subject. For a FALSY exception object (__bool__ False / "
+               "__len__ 0) only is_err is demanded: TaskiqResult's validator turns it into error=None (a falsy no-result signal "
+               "is therefore stored: proposed finding corpus/C07/proposed, never generated).",
     rule="case = 1-6 concurrent messages x outcome x timeout label x backend plan x stack; non-trivial iff some well-formed "
          "message has an outcome other than plain return, or a duration within 2x of its timeout label, or a failing save "
          "followed (in the same run) by another message; distinct by canonical case",
